@@ -4,6 +4,8 @@ import ObiVerif.Model.Fp
 -/
 namespace ObiVerif.Fp
 
+theorem W_pos : 0 < W := by decide
+
 instance (u : U64) : Decidable u.WF := by unfold U64.WF; infer_instance
 instance (u : U128) : Decidable u.WF := by unfold U128.WF; infer_instance
 instance (u : U256) : Decidable u.WF := by unfold U256.WF; infer_instance
